@@ -28,7 +28,7 @@ CHECKS = {
             "Trusts the reference construction in harness/src/lr.rs and rustc/std; grammars larger than the generator bounds are not observed.", "5 (C04)"),
     "C05": ("compile", "exploration",
             "runtime monitoring under rustc: emitted modules for adversarially named grammars must compile; payload types carry no trait",
-            "Every helper name the emitter uses (and its uniquified forms, letter-less names, the emitter's locals as field names) is placed alone in every role and in random mixes; payload types are bare structs without derives; each emitted module is compiled with rustc --emit=metadata. Two recorded emitter limitations are KNOWN-FINDINGs keyed on structural condition + rustc error.",
+            "Every helper name the emitter uses (and its uniquified forms, letter-less names, the emitter's locals as field names) is placed alone in every role and in random mixes; payload types are bare structs without derives; each emitted module is compiled with rustc --emit=metadata. One recorded emitter limitation (variant named `Error`) is a KNOWN-FINDING keyed on structural condition + rustc diagnostic.",
             "rustc (stable, edition 2021) is the judge; names outside the pools are not tried.", "5 (C05)"),
     "C06": ("compile", "exploration",
             "runtime monitoring under rustc: emitted item shapes read token-wise + a generated client that must type-check",
